@@ -32,7 +32,8 @@ theorem origin_roundtrip (p rest : Bytes) (stk : List Bytes) (hp : ∀ c ∈ p, 
     cases rest with
     | nil => gsimp [next_nil]
     | cons c r => gsimp [next_cons]
-  simp only [originField, P.bind_run, hn, hline, Pars.clear, getS, setS, P.pure_run, hn0, if_false, htn,
+  have hg : ¬ ((p.length : Int) > 1000000020) := by omega
+  simp only [originField, P.bind_run, hn, hline, Pars.clear, getS, setS, P.pure_run, hg, hn0, if_false, htn,
     List.length_append, show ¬ ((Origin.originStream p).length + rest.length < (Origin.originStream p).length) by omega,
     List.take_left, hv, advanceN, List.drop_left, hnext]
 
